@@ -1,7 +1,7 @@
 T = "GeomV.C13."
 CFG = {
     "id": "C13",
-    "lean_modules": ["GeomV.C13.Proofs", "GeomV.C13.Ties"],
+    "lean_modules": ["GeomV.C13.Proofs", "GeomV.C13.Ties", "GeomV.C13.ProofsMeet"],
     "exe": "geomv_c13",
     "go_cmd": "c13",
     "stages": ["go:gen", "go:impl", "lean:judge"],
@@ -11,6 +11,9 @@ CFG = {
         "C13_tie_pointSubtract", "C13_tie_dot", "C13_tie_norm", "C13_tie_d", "C13_tie_lengthToOrigin",
         "C13_tie_distPointToSegment", "C13_tie_findIntersection2", "C13_tie_findIntersection2_nan", "C13_tie_findIntersection",
         "C13_gen_far_spec", "C13_gen_count_zero_iff_not_meet",
+        "C13_segsMeet_meaning_full", "C13_findIntersection_meets", "C13_gen_findIntersection_meets",
+        "C13_findIntersection_collinear", "C13_findIntersection_collinear_bias",
+        "C13_ring_closing_guard_vacuous", "C13_ring_simplicity_not_preserved",
     ]],
     "trusted_base": [
         "Lean 4.33.0 kernel; axioms of every theorem printed by #print axioms must be within {propext, Classical.choice, Quot.sound}",
